@@ -93,7 +93,7 @@ theorem mapM_some {β γ} (g : β → Option γ) (h : β → γ) (l : List β) (
 /-- rank `r` of a complete run: its rows are the rows of its slice of the zipped (function, stage-1 row) list -/
 theorem fisherRank_eq (nan zero : α) (isBad : α → Bool) (mp : Nat) (tryInt : Bool)
     (o1 o2 : φ → α × List α → Out (Conv α)) (fs : List φ) (table : List (α × List α)) (P r : Nat)
-    (hlen : table.length = fs.length) (hc : NoCrash isBad tryInt o1 o2 fs table) :
+    (h4 : 4 ≤ mp) (hlen : table.length = fs.length) (hc : NoCrash isBad tryInt o1 o2 fs table) :
     fisherRank nan zero isBad mp tryInt o1 o2 fs table P r =
       some ((getFunctionsSlice (List.zip fs table) P r).map
         (fun p => fisherRow nan zero isBad mp tryInt p.2.1 (o1 p.1 p.2) (o2 p.1 p.2))) := by
@@ -106,7 +106,10 @@ theorem fisherRank_eq (nan zero : α) (isBad : α → Bool) (mp : Nat) (tryInt :
   have hl : ¬ (pySlice table (dataStart fs.length P r) (dataEnd fs.length P r)).length < (getFunctionsSlice fs P r).length := by
     unfold getFunctionsSlice
     rw [pySlice_length, pySlice_length, hlen]; omega
-  simp only [hl, if_false, hz]
+  have hw : ¬ derivWidth mp < 10 := by
+    have : 4 * 5 ≤ mp * (mp + 1) := Nat.mul_le_mul h4 (by omega)
+    unfold derivWidth; omega
+  simp only [hw, hl, if_false, hz]
   have hmem : ∀ p ∈ getFunctionsSlice (List.zip fs table) P r, p ∈ List.zip fs table := by
     intro p hp
     unfold getFunctionsSlice pySlice at hp
@@ -122,13 +125,13 @@ theorem fisherRank_eq (nan zero : α) (isBad : α → Bool) (mp : Nat) (tryInt :
 function: every rank completes and row `i` is computed from function `i` and stage-1 row `i` only, whatever `P`. -/
 theorem fisherFile_eq (nan zero : α) (isBad : α → Bool) (mp : Nat) (tryInt : Bool)
     (o1 o2 : φ → α × List α → Out (Conv α)) (fs : List φ) (table : List (α × List α)) (P : Nat) (hP : 1 ≤ P)
-    (hlen : table.length = fs.length) (hc : NoCrash isBad tryInt o1 o2 fs table) :
+    (h4 : 4 ≤ mp) (hlen : table.length = fs.length) (hc : NoCrash isBad tryInt o1 o2 fs table) :
     fisherFile nan zero isBad mp tryInt o1 o2 fs table P =
       some ((List.zip fs table).map (fun p => fisherRow nan zero isBad mp tryInt p.2.1 (o1 p.1 p.2) (o2 p.1 p.2))) := by
   unfold fisherFile
   rw [mapM_some _ (fun r => (getFunctionsSlice (List.zip fs table) P r).map
         (fun p => fisherRow nan zero isBad mp tryInt p.2.1 (o1 p.1 p.2) (o2 p.1 p.2)))
-      _ (fun r _ => fisherRank_eq nan zero isBad mp tryInt o1 o2 fs table P r hlen hc)]
+      _ (fun r _ => fisherRank_eq nan zero isBad mp tryInt o1 o2 fs table P r h4 hlen hc)]
   simp only [Option.map_some]
   congr 1
   rw [← List.flatMap_def]
@@ -136,9 +139,9 @@ theorem fisherFile_eq (nan zero : α) (isBad : α → Bool) (mp : Nat) (tryInt :
 
 theorem fisherFile_length (nan zero : α) (isBad : α → Bool) (mp : Nat) (tryInt : Bool)
     (o1 o2 : φ → α × List α → Out (Conv α)) (fs : List φ) (table : List (α × List α)) (P : Nat) (hP : 1 ≤ P)
-    (hlen : table.length = fs.length) (hc : NoCrash isBad tryInt o1 o2 fs table) :
+    (h4 : 4 ≤ mp) (hlen : table.length = fs.length) (hc : NoCrash isBad tryInt o1 o2 fs table) :
     ∃ rows, fisherFile nan zero isBad mp tryInt o1 o2 fs table P = some rows ∧ rows.length = fs.length := by
-  refine ⟨_, fisherFile_eq nan zero isBad mp tryInt o1 o2 fs table P hP hlen hc, ?_⟩
+  refine ⟨_, fisherFile_eq nan zero isBad mp tryInt o1 o2 fs table P hP h4 hlen hc, ?_⟩
   simp [List.length_zip, hlen]
 
 /-- a function whose stage-1 likelihood is NaN or infinite is never given a finite parameter code length: its row is
@@ -184,7 +187,7 @@ theorem two_stages_rank_independent (nan zero : α) (isBad : α → Bool) (comp 
         let row := fitRow nan zero (maxParam comp) tryInt (f1 f) (f2 f)
         fisherRow nan zero isBad (maxParam comp) tryInt row.1 (o1 f row) (o2 f row))) := by
   rw [fitFile_eq _ _ _ _ _ _ _ _ h1]
-  rw [fisherFile_eq nan zero isBad _ tryInt o1 o2 fs _ P₂ h2 (by simp) hc]
+  rw [fisherFile_eq nan zero isBad _ tryInt o1 o2 fs _ P₂ h2 (maxParam_ge comp).1 (by simp) hc]
   congr 1
   rw [List.zip_map_right, List.map_map]
   have hz : ∀ l : List φ, l.zip l = l.map (fun f => (f, f)) := by
@@ -204,15 +207,19 @@ example :
     = [("1.5", ["2", "0", "0", "0"]), ("7", ["1", "1", "1", "1"]), ("nan", ["0", "0", "0", "0"])] := by decide
 
 example :
-    fisherFile "nan" "0" (fun s => s == "nan" || s == "inf") 2 false
-      (fun f _ => if f = "f0" then .ok ⟨["2", "0"], "1.4", ["9", "0", "3"], "0.7"⟩ else .nameError)
-      (fun _ _ => .raises) ["f0", "f1", "f2"] [("1.5", ["2", "1"]), ("3", ["1", "1"]), ("nan", ["0", "0"])] 2
-    = some [⟨["2", "0"], "1.4", ["9", "0", "3"], "0.7"⟩, ⟨["0", "0"], "3", ["0", "0", "0"], "0"⟩, ⟨["0", "0"], "nan", ["0", "0", "0"], "nan"⟩] := by
+    (fisherFile "nan" "0" (fun s => s == "nan" || s == "inf") 4 false
+      (fun f _ => if f = "f0" then .ok ⟨["2", "0", "0", "0"], "1.4", ["9"], "0.7"⟩ else .nameError)
+      (fun _ _ => .raises) ["f0", "f1", "f2"] [("1.5", ["2", "1"]), ("3", ["1", "1"]), ("nan", ["0", "0"])] 2).map (List.map codelenCols)
+    = some [["0.7", "1.4", "2", "0", "0", "0"], ["0", "3", "0", "0", "0", "0"], ["nan", "nan", "0", "0", "0", "0"]] := by
+  decide
+
+/-- a stage-1 table with fewer than four parameter columns (never written by `test_all.main`) stops every rank at line 308 -/
+example : fisherFile "nan" "0" (fun s => s == "nan") 3 false (fun _ _ => .raises) (fun _ _ => .raises) ["f0"] [("1", ["1", "1", "1"])] 1 = none := by
   decide
 
 /-- with `try_integration` a retry that raises takes the rank down (the Python has no handler around it) -/
 example :
-    fisherFile "nan" "0" (fun s => s == "nan") 1 true (fun _ _ => .nameError) (fun _ _ => .raises) ["f0"] [("1", ["1"])] 1 = none := by
+    fisherFile "nan" "0" (fun s => s == "nan") 4 true (fun _ _ => .nameError) (fun _ _ => .raises) ["f0"] [("1", ["1"])] 1 = none := by
   decide
 
 end ESR.C14c
